@@ -75,6 +75,29 @@ func (sf ScrubFields) Clean(payload map[string]interface{}) {
 	return
 }
 
+// cleanList scrubs the entries of a list, which may be lists themselves ([[Item]]), and reports whether
+// nothing is left of it
+func (sf ScrubFields) cleanList(list []interface{}, path []string, fields map[string][]string) bool {
+	if len(list) == 0 {
+		return false
+	}
+	removeParent := true
+	for _, x := range list {
+		switch vv := x.(type) {
+		case map[string]interface{}:
+			toCleanParent := sf.clean(vv, path, fields)
+			removeParent = removeParent && toCleanParent
+		case []interface{}:
+			toCleanParent := sf.cleanList(vv, path, fields)
+			removeParent = removeParent && toCleanParent
+		default:
+			// a null entry has nothing to scrub and is part of the answer: the list stays
+			removeParent = false
+		}
+	}
+	return removeParent
+}
+
 func (sf ScrubFields) clean(payload map[string]interface{}, path []string, fields map[string][]string) bool {
 	if len(path) == 0 {
 		// an object which does not tell its type is described by every entry of this path,
@@ -103,18 +126,7 @@ func (sf ScrubFields) clean(payload map[string]interface{}, path []string, field
 	case map[string]interface{}:
 		removeParent = sf.clean(v, path[1:], fields)
 	case []interface{}:
-		for _, x := range v {
-			if vv, ok := x.(map[string]interface{}); ok {
-				toCleanParent := sf.clean(vv, path[1:], fields)
-				removeParent = removeParent && toCleanParent
-			} else {
-				// a null entry has nothing to scrub and is part of the answer: the list stays
-				removeParent = false
-			}
-		}
-		if len(v) == 0 {
-			removeParent = false
-		}
+		removeParent = sf.cleanList(v, path[1:], fields)
 	case []map[string]interface{}:
 		for _, vv := range v {
 			toCleanParent := sf.clean(vv, path[1:], fields)
